@@ -57,6 +57,27 @@ fn canon(out: &[star_test_utils::Output]) -> (Canon, Vec<Vec<u8>>) {
 }
 
 fn scenario(rec: &mut Rec, ctx: &Ctx, idx: u64, rng: &mut ChaCha20Rng) {
+  scenario_with(rec, ctx, idx, rng, None)
+}
+
+/// every small batch composition around the threshold: the whole batch is one group of
+/// exactly t / t-1 / t+1 reports, t singletons, two groups at or just below the threshold, ...
+fn small_batches() -> Vec<(u32, Vec<usize>)> {
+  let mut out = Vec::new();
+  for t in [1u32, 2, 3, 4, 5, 6, 8] {
+    let tu = t as usize;
+    let mut comps: Vec<Vec<usize>> = vec![vec![tu], vec![tu + 1], vec![tu, 1], vec![1, tu], vec![1; tu], vec![tu, tu], vec![2 * tu], vec![tu, tu + 1, 1]];
+    if tu >= 2 {
+      comps.extend([vec![tu - 1], vec![tu - 1, 1], vec![tu - 1, tu - 1], vec![tu, tu - 1], vec![1; tu - 1]]);
+    }
+    for c in comps {
+      out.push((t, c));
+    }
+  }
+  out
+}
+
+fn scenario_with(rec: &mut Rec, ctx: &Ctx, idx: u64, rng: &mut ChaCha20Rng, fixed: Option<&(u32, Vec<usize>)>) {
   let t: u32 = *pick(rng, &[1u32, 2, 3, 5, 8]);
   let groups: usize = match idx % 8 {
     0 => rng.gen_range(150..=300),
@@ -65,6 +86,10 @@ fn scenario(rec: &mut Rec, ctx: &Ctx, idx: u64, rng: &mut ChaCha20Rng) {
   };
   let groups = ((groups as f64) * ctx.scale.min(1.0)).ceil() as usize;
   let (t, groups) = if ctx.flag("tiny") { (2u32, 2usize) } else { (t, groups) };
+  let (t, groups) = match fixed {
+    Some((ft, fs)) => (*ft, fs.len()),
+    None => (t, groups),
+  };
   let mut epoch: String = (0..rng.gen_range(0..6)).map(|_| char::from(rng.gen_range(0x61u8..0x7b))).collect();
   // epochs are arbitrary strings: white space at the edges, multi-byte characters, upper case, long
   match idx % 7 {
@@ -101,6 +126,10 @@ fn scenario(rec: &mut Rec, ctx: &Ctx, idx: u64, rng: &mut ChaCha20Rng) {
     } as usize;
     // a few scenarios contain "hot" measurements reported by 64..200 clients
     let size = if idx % 8 == 3 && g < 3 && !ctx.flag("tiny") { rng.gen_range(64..=200) } else { size };
+    let size = match fixed {
+      Some((_, fs)) => fs[g],
+      None => size,
+    };
     sizes.push(size);
     let mut auxes: Vec<Vec<u8>> = Vec::new();
     for _ in 0..size {
@@ -254,7 +283,14 @@ pub fn run(ctx: &Ctx) -> Rec {
   let mut c1 = ctx.clone();
   c1.threads = 1;
   let n = if ctx.flag("tiny") { 1 } else { ctx.n(120, 4000) };
-  let rec = par_run(&c1, "scenario", n, |rec, i, rng| scenario(rec, ctx, i, rng));
+  let mut rec = par_run(&c1, "scenario", n, |rec, i, rng| scenario(rec, ctx, i, rng));
+  if !ctx.flag("tiny") {
+    let sb = small_batches();
+    rec.merge(par_run(&c1, "small-batch", sb.len() as u64, |rec, i, rng| {
+      rec.ev("small_batch_scenarios");
+      scenario_with(rec, ctx, 1_000_000 + i, rng, Some(&sb[i as usize]))
+    }));
+  }
   star_test_utils::verif::set_bucket_hook(None);
   rec
 }
